@@ -290,10 +290,12 @@ func (a *qtArea) Run(line string) string {
 		}
 		a.ti, a.tf = nil, nil
 		switch f[1] {
-		case "i":
+		case "i", "w":
 			a.ti = newTree(hx.Atoi(f[2]), hx.Atoi)
 		case "f":
 			a.tf = newTree(hx.Atoi(f[2]), gx.F)
+		case "d":
+			a.tf = newTree(hx.Atoi(f[2]), unbits)
 		default:
 			return "bad-op"
 		}
@@ -760,5 +762,5 @@ func (a *qtArea) Gen(r *hx.Rng, n int, tier string, emit func(string)) {
 func main() {
 	debug.SetMaxStack(16 << 20) // a runaway split recursion dies quickly instead of after 1 GB
 	go watchdog()
-	hx.Main(map[string]hx.Area{"quadtree": &qtArea{}, "floatscan": fsArea{}, "intwrap": iwArea{}})
+	hx.Main(map[string]hx.Area{"quadtree": &qtArea{}, "floatscan": fsArea{}, "intwrap": iwArea{}, "quadwrap": &qwArea{}, "quadfloat": &qfArea{}})
 }
